@@ -153,6 +153,28 @@ impl WalRecuperator {
             return Ok(());
         }
 
+        // The object must come back under the id it was created with: the rows logged after it name that id.
+        // Drawing a fresh id from the counter gave another one whenever an object created in between was not
+        // redone (its transaction was rolled back or unfinished): replaying the rows then failed with
+        // 'Table not found <id>' and the database did not open.
+        let counter_before = self.dml_executor.ctx().pager().read().get_last_stored_object();
+        if let Some(object_id) = create_op.row_id() {
+            self.dml_executor
+                .ctx()
+                .pager()
+                .write()
+                .set_last_stored_object(object_id);
+        }
+        let result = self.redo_create_instruction(redo_bytes);
+        let mut pager = self.dml_executor.ctx().pager().write();
+        let counter_after = pager.get_last_stored_object();
+        pager.set_last_stored_object(counter_before.max(counter_after));
+        drop(pager);
+        result
+    }
+
+    fn redo_create_instruction(&mut self, redo_bytes: &[u8]) -> RuntimeResult<()> {
+
         // Try to deserialize as CreateTableInstr first
         if let Ok(create_table_instr) = CreateTableInstr::from_bytes(redo_bytes) {
             let instr = DdlInstruction::CreateTable(create_table_instr);
